@@ -68,7 +68,7 @@ CHECKS = {
          "PBKW inputs beyond the stated KDF budget are skipped (counted). aws-lc and libsodium are uninstrumented C in the quick tier; the fuzz build adds ASan to the Rust side and the FFI boundary.",
          "property-based testing (proptest) + enumeration in isolated child processes; coverage-guided fuzzing (libFuzzer+ASan) in the thorough tier", "DESIGN.md §5 C04"),
  "C16": ("pv-harness", "fault_enumeration",
-         "Histories of identical operations with set-based uniqueness of every fresh field and (getrandom back ends) a draw log proving the field is the prescribed function of freshly drawn bytes; fault enumeration over every (operation kind x RNG draw index x partial fill x error kind {internal, custom, EIO, EAGAIN, unsupported} x {one draw, every draw from there on}): must return Err, produce nothing, and leave the next operation working.",
+         "Histories of identical operations with set-based uniqueness of every fresh field and (getrandom back ends) a draw log proving the field is the prescribed function of freshly drawn bytes; fault enumeration over every (operation kind x RNG draw index x partial fill x error kind {internal, custom, EIO, EAGAIN, unsupported} x {one draw, every draw from there on}): must return Err (a case that does not return at all is decided by CPU time and a control run in a fresh process), produce nothing, and leave the next operation working.",
          "aws-lc, libsodium and rsa::OsRng draw outside getrandom 0.3 and cannot be failed in-process: only the history part applies to them.",
          "stateful history checking + exhaustive RNG fault injection through a custom getrandom backend", "DESIGN.md §5 C16, §3.4"),
  "C17": ("pv-harness", "exploration",
